@@ -155,5 +155,49 @@ func c19Shapes(ctx *Ctx) []*sem.Case {
 			out = append(out, c)
 		}
 	}
+	// arrays whose elements may be anything (no items / empty items / several types / typed scalars), next to the array
+	// keywords the generator ignores today (uniqueItems, contains, additionalItems): documents with elements of every
+	// JSON kind, duplicates among them - containers are not comparable, nothing may assume they are
+	itemKinds := []struct {
+		name string
+		mk   func() *sg.Schema
+	}{
+		{"none", func() *sg.Schema { return nil }},
+		{"empty", func() *sg.Schema { return &sg.Schema{} }},
+		{"multi", func() *sg.Schema { return &sg.Schema{Types: []string{"string", "object", "array"}} }},
+		{"string", func() *sg.Schema { return &sg.Schema{Types: []string{"string"}} }},
+		{"number", func() *sg.Schema { return &sg.Schema{Types: []string{"number"}} }},
+	}
+	kwSets := []jsonx.Obj{nil, {{K: "uniqueItems", V: true}}, {{K: "uniqueItems", V: true}, {K: "additionalItems", V: false}},
+		{{K: "uniqueItems", V: true}, {K: "contains", V: jsonx.Obj{{K: "type", V: "object"}}}}, {{K: "uniqueItems", V: false}, {K: "minContains", V: jsonx.N(1)}}}
+	for ki, ik := range itemKinds {
+		for wi, kw := range kwSets {
+			mk := func(lim bool) *sg.Schema {
+				a := &sg.Schema{Types: []string{"array"}, Items: ik.mk(), Extra: kw}
+				if lim {
+					a.MaxItems = 6
+				}
+				return a
+			}
+			named := mk(true)
+			root := &sg.Schema{Types: []string{"object"}, Defs: []sg.Prop{{Name: "Bag", S: named}},
+				Props: []sg.Prop{{Name: "values", S: mk(false)}, {Name: "limited", S: mk(true)}, {Name: "nullable", S: func() *sg.Schema { a := mk(false); a.Types = []string{"array", "null"}; return a }()},
+					{Name: "bag", S: &sg.Schema{Ref: "#/$defs/Bag", Target: named}}, {Name: "name", S: &sg.Schema{Types: []string{"string"}}}}, Required: []string{"name"}}
+			c := &sem.Case{Root: root, Sig: fmt.Sprintf("shape/bag-%s-kw%d", ik.name, wi)}
+			if (ki+wi)%2 == 0 {
+				c.Args = []string{"--extra-imports"}
+			}
+			for _, text := range []string{`[{"k":1}]`, `[[1,2]]`, `[{"k":1},{"k":1}]`, `[[],[]]`, `["a","a"]`, `[1,1.0,1]`, `[null,null]`, `[{"k":[1,{"z":null}]},"a",3,true,null,[[]]]`, `[true,false,true]`, `[]`,
+				`[1e400]`, `["a",{"a":"a"},["a"]]`, `[{}]`, `[{},{}]`} {
+				for _, key := range []string{"values", "limited", "nullable", "bag"} {
+					v, err := jsonx.Parse([]byte(`{"name":"n","` + key + `":` + text + `}`))
+					if err == nil {
+						c.Docs = append(c.Docs, docgen.Doc{V: v, Class: "ragged", Label: key + "=" + text})
+					}
+				}
+			}
+			out = append(out, c)
+		}
+	}
 	return out
 }
